@@ -157,6 +157,10 @@ def sub_specs(sp):
         return []
     out = []
     for k in act:
+        if k == "numty" and sp["sig"] is not None:
+            # significant_digits REPLACES the 12 digits ignore_numeric_type_changes implies; rounding is not monotone in the number
+            # of digits (0.5 - 2^-42 vs 0.5 + 2^-42: equal at 12 digits, 0 vs 1 at 0 digits): Coq comp_sig_over_numty_refuted
+            continue
         sub = dict(BASE)
         sub["private"], sub["base_private"] = sp["private"], sp["base_private"]
         sub[k] = sp[k]
@@ -1412,7 +1416,8 @@ def oracle_case(args):
                 "plain": base[0] if base[0] == "raised" else ("empty" if not base[1] else "nonempty"),
                 "plain_exc": base[1] if base[0] == "raised" else None,
                 "with_options": opt[1] if opt[0] == "raised" else ("empty" if not opt[1] else str(dict(opt[1]))[:300]),
-                "exc": opt[1] if opt[0] == "raised" else None, "what": what,
+                "exc": opt[1] if opt[0] == "raised" else None, "exc_msg": opt[2] if opt[0] == "raised" else None,
+                "kinds": sorted(opt[1].keys()) if opt[0] == "ok" else None, "what": what,
                 "n_reports": None if opt[0] == "raised" else sum(len(v) if hasattr(v, "__len__") else 1 for v in opt[1].values())}
     if fam == "alt":
         if opt[0] == "raised" and base[0] == "raised":
@@ -1448,9 +1453,22 @@ def _cleaning(sp):
     return sp["case"] or sp["strty"] or sp["numty"]
 
 
+def _msg(c, *subs):
+    m = c.get("exc_msg")
+    return m is None or any(x in m for x in subs)      # cases recorded before exc_msg existed carry no message
+
+
+def _kinds(c, allowed):
+    k = c.get("kinds")
+    return k is None or (len(k) > 0 and set(k) <= set(allowed))
+
+
+KEY_KINDS = ("dictionary_item_added", "dictionary_item_removed", "values_changed", "type_changes")
+
+
 def m_dtkey(c):
-    return (c["exc"] == "TypeError" and _cleaning(c["spec"]) and ("datetime_key" in c["features"] or "date_time_key" in c["features"])
-            and c["clause"] in ("A", "C"))
+    return (c["exc"] == "TypeError" and _msg(c, "__round__") and _cleaning(c["spec"])
+            and ("datetime_key" in c["features"] or "date_time_key" in c["features"]) and c["clause"] in ("A", "C"))
 
 
 def m_enum_none(c):
@@ -1461,21 +1479,21 @@ def m_enum_none(c):
 
 def m_trunc_date(c):
     """truncate_datetime: datetime_normalize calls .replace(microsecond=...) on date (TypeError) and timedelta (AttributeError) leaves"""
-    return (c["exc"] in ("TypeError", "AttributeError") and c["spec"]["trunc"] is not None and "has_date_td" in c["features"]
-            and c["clause"] in ("A", "C"))
+    return (c["exc"] in ("TypeError", "AttributeError") and _msg(c, "replace") and c["spec"]["trunc"] is not None
+            and "has_date_td" in c["features"] and c["clause"] in ("A", "C"))
 
 
 def m_sig_td_set(c):
     """a timedelta set member under a precision: DeepHash._prep_number -> round(timedelta)"""
     sp = c["spec"]
-    return (c["exc"] == "TypeError" and (sp["sig"] is not None or sp["numty"]) and "timedelta_set_member" in c["features"]
-            and c["clause"] in ("A", "C"))
+    return (c["exc"] == "TypeError" and _msg(c, "timedelta doesn't define __round__") and (sp["sig"] is not None or sp["numty"])
+            and "timedelta_set_member" in c["features"] and c["clause"] in ("A", "C"))
 
 
 def m_sig0_nan(c):
     """significant_digits=0: number_to_string does int(round(x, 0)), which raises on nan / inf"""
-    return (c["exc"] in ("ValueError", "OverflowError") and c["spec"]["sig"] == 0 and "has_nan_inf" in c["features"]
-            and c["clause"] in ("A", "C"))
+    return (c["exc"] in ("ValueError", "OverflowError") and _msg(c, "cannot convert float") and c["spec"]["sig"] == 0
+            and "has_nan_inf" in c["features"] and c["clause"] in ("A", "C"))
 
 
 def m_excl_default_list(c):
@@ -1488,8 +1506,8 @@ def m_excl_default_list(c):
 def m_num_precision(c):
     """equal numbers of different type are rendered differently when the magnitude exceeds what the float detour of
     number_to_string keeps: '{:.12f}'.format(int) goes through float (ints beyond 2^53), numpy's round(x, 12) multiplies by 10^12"""
-    return (c["clause"] in ("A", "D") and c["exc"] is None and any(x.startswith("numty@") for x in c["altered"])
-            and ("huge_number" in c["features"] or "numpy_float" in c["features"]))
+    return (c["clause"] in ("A", "D") and c["exc"] is None and _kinds(c, ("values_changed",))
+            and any(x.startswith("numty@") for x in c["altered"]) and ("huge_number" in c["features"] or "numpy_float" in c["features"]))
 
 
 def m_numpy_decimal(c):
@@ -1515,8 +1533,8 @@ def m_enum_type(c):
 def m_numgroup_dt(c):
     """helper.numbers contains the datetime types: under ignore_numeric_type_changes a datetime and a number pass the
     type check and reach _diff_datetime / number_to_string with the wrong operand"""
-    return (c["exc"] in ("TypeError", "AttributeError") and c["spec"]["numty"] and "has_datetime" in c["features"]
-            and c["clause"] in ("A", "C"))
+    return (c["exc"] in ("TypeError", "AttributeError") and _msg(c, "__round__", "replace", "must be real number")
+            and c["spec"]["numty"] and "has_datetime" in c["features"] and c["clause"] in ("A", "C"))
 
 
 def _only(c, aspects, places):
@@ -1527,7 +1545,8 @@ def _only(c, aspects, places):
 def m_num_key(c):
     """a numeric perturbation (significant_digits without a key-cleaning option, math_epsilon always) at a dict key"""
     sp = c["spec"]
-    return (_only(c, ("eps",), ("key",)) or (_only(c, ("sig",), ("key",)) and not _cleaning(sp)))
+    # (a perturbed key can coincide with another key of the dict: then the values under it are compared, any kind of report)
+    return _only(c, ("eps",), ("key",)) or (_only(c, ("sig",), ("key",)) and not _cleaning(sp))
 
 
 def m_eps_set(c):
@@ -1537,22 +1556,22 @@ def m_eps_set(c):
 def m_eps_over_sig(c):
     sp = c["spec"]
     if c["clause"] == "D":      # the rendering comparison (significant_digits, or the 12 digits of ignore_numeric_type_changes) found the numbers equal
-        return sp["eps"] is not None and c.get("sub_option") in ("sig", "numty") and c["exc"] is None
+        return sp["eps"] is not None and c.get("sub_option") in ("sig", "numty") and c["exc"] is None and _kinds(c, ("values_changed",))
     return sp["eps"] is not None and sp["sig"] is not None and _only(c, ("sig",), ("leaf", "key", "set"))
 
 
 def m_excl_key(c):
-    return _only(c, ("excl",), ("key",))
+    return _only(c, ("excl",), ("key",)) and _kinds(c, KEY_KINDS)
 
 
 def m_bytes_key_case(c):
-    return _only(c, ("case",), ("key",)) and not c["spec"]["strty"] and "bytes_key" in c["features"]
+    return _only(c, ("case",), ("key",)) and not c["spec"]["strty"] and "bytes_key" in c["features"] and _kinds(c, KEY_KINDS)
 
 
 def m_enum_key(c):
     """use_enum_value at a dict key: not applied without a key-cleaning option; with one, the member's value is taken
     but not cleaned further (E.C -> 2.5 against the key 2.5 -> 'number:2.500000000000')"""
-    if not _only(c, ("enum",), ("key",)):
+    if not _only(c, ("enum",), ("key",)) or not _kinds(c, KEY_KINDS):
         return False
     sp = c["spec"]
     if not _cleaning(sp):
@@ -1563,27 +1582,31 @@ def m_enum_key(c):
 
 def m_nan_key(c):
     """a nan dict key anywhere: its copy is another object and nan != nan"""
-    return c["clause"] == "A" and c["exc"] is None and c["spec"]["nan"] and "nan_key" in c["features"]
+    return c["clause"] == "A" and c["exc"] is None and c["spec"]["nan"] and "nan_key" in c["features"] and _kinds(c, KEY_KINDS)
 
 
 def m_dt_key_set(c):
-    return _only(c, ("trunc",), ("key", "set")) or _only(c, ("tz",), ("key",))
+    return ((_only(c, ("trunc",), ("key", "set")) or _only(c, ("tz",), ("key",)))
+            and _kinds(c, KEY_KINDS + ("set_item_added", "set_item_removed")))
 
 
 def m_trunc_tz(c):
     """truncation is done in the datetime's own zone BEFORE the conversion to default_timezone: two renderings of one
     instant in different zones truncate to different instants"""
     return (c["spec"]["trunc"] is not None and "has_datetime" in c["features"] and c["exc"] is None
+            and _kinds(c, ("values_changed",)) and "datetime" in str(c["with_options"])
             and (c["clause"] in ("B", "D") or (c["clause"] == "A" and any(x.startswith("tz@") for x in c["altered"]))))
 
 
 def m_collision(c):
-    return c["clause"] in ("A", "B", "D") and c["exc"] is None and _cleaning(c["spec"]) and "clean_collision" in c["features"]
+    return (c["clause"] in ("A", "B", "D") and c["exc"] is None and _cleaning(c["spec"]) and "clean_collision" in c["features"]
+            and _kinds(c, KEY_KINDS + ("type_changes", "iterable_item_added", "iterable_item_removed", "set_item_added", "set_item_removed")))
 
 
 def m_alias_key(c):
     sp = c["spec"]
-    return (c["clause"] in ("B", "D") and _cleaning(sp) and not sp["numty"] and sp["sig"] is not None and "alias_key" in c["features"])
+    return (c["clause"] in ("B", "D") and c["exc"] is None and _cleaning(sp) and not sp["numty"] and sp["sig"] is not None
+            and "alias_key" in c["features"] and _kinds(c, KEY_KINDS))
 
 
 def m_tag_set(c):
@@ -2143,10 +2166,10 @@ def run(ctx):
     rng = ctx.rng
     thorough = ctx.thorough
     replay_witnesses(ctx)
-    atom_level(ctx, 8000 if thorough else 600)
+    atom_level(ctx, 8000 if thorough else 420)
 
     # ---- structural correspondence + oracle on the modelled universe ----
-    per_spec = 2400 if thorough else 100
+    per_spec = 2400 if thorough else 55
     mjobs, ojobs = [], []
     specs = all_specs(rng, True)
     for name, sp in specs:
@@ -2201,7 +2224,7 @@ def run(ctx):
     # ---- the extended model (arbitrary floats, datetimes; + truncate_datetime, default_timezone) ----
     global _XU
     _XU = True
-    per_spec = 900 if thorough else 50
+    per_spec = 700 if thorough else 26
     xjobs, ojobs = [], []
     for name, sp in xspecs(rng):
         for fam, a, b, log in gen_pairs(rng, sp, per_spec, True):
@@ -2218,7 +2241,25 @@ def run(ctx):
                 ctx.count("xcorr_skipped:str_valued_enum_member_meets_container")
                 continue
             xjobs.append((a, b, sp, zip_, thr, fam, name))
-    for name, sp, fam, a, b, log in focus_pairs(rng, 1500 if thorough else 160):
+    # the witnesses of the Coq [_refuted] theorems and findings that live in the extended universe, as correspondence cases
+    xhand = [(0.5 - 2 ** -42, 0.5 + 2 ** -42, mk(numty=True)), (0.5 - 2 ** -42, 0.5 + 2 ** -42, mk(numty=True, sig=0)),
+             ([1.5], [2.0], mk(sig=0)), ([1.5], [2.0], mk(sig=0, eps=0.25)),
+             (NANS[0], NANS[1], mk(nan=True)), (NANS[0], NANS[1], mk(nan=True, eps=0.0)), (NANS[0], NANS[1], mk(eps=0.0)),
+             (NANS[0], NANS[0], mk(eps=0.0)), ([NANS[0], 1], [1, NANS[0]], mk()), ({NANS[0]: 1}, {NANS[0]: 1}, mk()),
+             (_dt(2024, 6, 1, 12, 40, 27, 0, 120), _dt(2024, 6, 1, 16, 25, 27, 0, 345), mk()),
+             (_dt(2024, 6, 1, 12, 40, 27, 0, 120), _dt(2024, 6, 1, 16, 25, 27, 0, 345), mk(trunc="hour")),
+             ({b"AB": [1]}, {"AB": [1]}, mk(strty=True)), ({b"AB": [1]}, {"AB": [1]}, mk(strty=True, case=True)),
+             ({G.Q: 1}, {"ab": 1}, mk(enum=True, case=True)), ({G.Q: 1}, {"ab": 1}, mk(enum=True)), ({G.Q: 1}, {"ab": 1}, mk(case=True)),
+             (E.A, E.C, mk()), (E.B, E.D, mk(case=True)), (E.A, G.P, mk()), (E.A, G.P, mk(enum=True)), (E.A, 1.0, mk(enum=True)),
+             (E.A, "1.00", mk(enum=True, sig=2)), (G.U, NANS[0], mk(enum=True, nan=True)), (NANS[0], G.U, mk(enum=True, nan=True)),
+             (Decimal("1.5"), Decimal("1.50"), mk()), (Decimal("1.5"), 1.5, mk(numty=True)), (Decimal("2.675"), 2.675, mk(numty=True, eps=0.0)),
+             (datetime.time(1, 2, 3), datetime.time(1, 2, 3, 500000), mk(trunc="second")), (datetime.time(1, 2, 3), 3723, mk(numty=True))]
+    for a, b, sp in xhand + [(w[1], w[2], w[3]) for w in WITNESSES]:
+        for zip_ in (False, True):
+            if in_xuniverse(a) and in_xuniverse(b) and not (sp["enum"] and enum_meets_container(a, b)):
+                xjobs.append((a, b, sp, zip_, 0.33, "hand", "hand"))
+            ojobs.append((a, b, sp, zip_, "rand", "hand", []))
+    for name, sp, fam, a, b, log in focus_pairs(rng, 1500 if thorough else 130):
         zip_ = rng.random() < 0.4
         thr = 0 if rng.random() < 0.25 else 0.33
         ojobs.append((a, b, sp, zip_, fam, name, log))
@@ -2265,7 +2306,7 @@ def run(ctx):
     report_oracle(ctx, ores, ojobs)
 
     # ---- direct oracle on the rich universe, all eleven options ----
-    per_spec = 1800 if thorough else 70
+    per_spec = 1500 if thorough else 40
     ojobs = []
     for name, sp in all_specs(rng, False):
         for fam, a, b, log in gen_pairs(rng, sp, per_spec, True):
